@@ -6,6 +6,8 @@ import (
 	"math/big"
 	"net"
 	"os"
+	"sort"
+	"strings"
 	"syscall"
 	"time"
 
@@ -149,5 +151,53 @@ func c16Admin(r *core.Run, env *menv.Env, s *sim.Sim, bal *big.Int, csig string)
 	}
 	if bal.Sign() >= 0 && bigU(t.TotalInCirculation).Cmp(bal) != 0 {
 		r.Violate("admin:circulation-differs", fmt.Sprintf("admin RPC reports %d in circulation, issued - redeemed = %v", t.TotalInCirculation, bal), csig, s.Tail(6))
+	}
+}
+
+// c16AdminPerKeyset asks issued_ecash / redeemed_ecash for one keyset id (the per-keyset form of the
+// admin RPC) and compares the amounts with the model.
+func c16AdminPerKeyset(r *core.Run, env *menv.Env, s *sim.Sim, csig string) {
+	var ids []string
+	for k, v := range s.Issued {
+		if v.Sign() != 0 {
+			ids = append(ids, k)
+		}
+	}
+	if len(ids) == 0 {
+		return
+	}
+	sort.Strings(ids)
+	id := ids[s.NOps%len(ids)]
+	for _, q := range []struct {
+		method string
+		model  map[string]*big.Int
+		field  string
+	}{{"issued_ecash", s.Issued, "amount_issued"}, {"redeemed_ecash", s.Redeemed, "amount_redeemed"}} {
+		want := q.model[id]
+		if want == nil {
+			want = new(big.Int)
+		}
+		raw, err := c16AdminCall(env, q.method, id)
+		if err != nil {
+			if strings.HasPrefix(err.Error(), "rpc error") {
+				if want.Sign() != 0 {
+					r.Violate("admin:per-keyset-query-refused:"+q.method, fmt.Sprintf("%s for keyset %s, on which the model has %v, answered %v", q.method, id, want, err), csig, nil)
+				}
+			} else {
+				r.Inconclusive("admin rpc: " + err.Error())
+			}
+			continue
+		}
+		var m map[string]json.RawMessage
+		var got uint64
+		var gotId string
+		if json.Unmarshal(raw, &m) != nil || json.Unmarshal(m[q.field], &got) != nil || json.Unmarshal(m["id"], &gotId) != nil {
+			r.Violate("admin:answer-unreadable", fmt.Sprintf("%s [%s] answered %s", q.method, id, truncStr(string(raw), 200)), csig, nil)
+			continue
+		}
+		r.Count("admin_rpc_per_keyset_answers_compared", 1)
+		if gotId != id || bigU(got).Cmp(want) != 0 {
+			r.Violate("admin:per-keyset-amount-differs:"+q.method, fmt.Sprintf("%s [%s] answers id %s amount %d, the model has %v", q.method, id, gotId, got, want), csig, s.Tail(6))
+		}
 	}
 }
